@@ -17,7 +17,7 @@ def field_atom(e, name):
     return None
 
 
-def full_range(g, cond_node, bound_field, lo=0):
+def full_range(g, cond_node, bound_field, lo=0, search=False):
     """the loop controlled by cond_node visits exactly lo..bound-1 in steps of one
     (decided by evaluating its header for bounds 0..4)"""
     lp = loops.counted_loop(g, None, cond_node)
@@ -35,6 +35,8 @@ def full_range(g, cond_node, bound_field, lo=0):
         return 'header not evaluable: %s' % e
     if not loops.step_on_every_iteration(g, lp):
         return 'an iteration can reach the loop test again without the step'
+    if not search and not loops.sole_exit(g, lp):
+        return 'the loop can be left (second header condition, break or return) before the bound test fails: later indices are never visited'
     return lp
 
 
